@@ -261,6 +261,38 @@ pub fn check(c: &Case, obs: &mut Obs) -> Result<(), String> {
             return Err(format!("installed package {:?} was not yielded (yielded: {:?})", n, seen.keys().collect::<Vec<_>>()));
         }
     }
+    // the same walk through the standard iterator adaptors (nth / skip / step_by / count / last):
+    // each package still once, nothing that is not a package
+    {
+        let n = want.len();
+        let open = || PkgDB::open(&spelled).map_err(|e| format!("PkgDB::open({:?}): {}", spelled, e));
+        let names = |it: &mut dyn Iterator<Item = std::io::Result<pkgsrc::pkgdb::Package>>| -> Result<Vec<String>, String> {
+            let mut v = vec![];
+            for p in it {
+                v.push(p.map_err(|e| format!("iteration error: {}", e))?.pkgname().clone());
+            }
+            Ok(v)
+        };
+        let k = c.dirs.len() % 4;
+        let plain = names(&mut open()?)?;
+        let skipped = names(&mut open()?.skip(k))?;
+        obs.verdicts += 1;
+        if skipped.len() != n.saturating_sub(k) || skipped.iter().any(|x| !want.contains_key(x.as_str())) {
+            return Err(format!("iterating with skip({}) yields {:?}; a plain walk yields {:?}", k, skipped, plain));
+        }
+        let stepped = names(&mut open()?.step_by(2))?;
+        if stepped.len() != (n + 1) / 2 || stepped.iter().any(|x| !want.contains_key(x.as_str())) {
+            return Err(format!("iterating with step_by(2) yields {:?}; a plain walk yields {:?}", stepped, plain));
+        }
+        let mut it = open()?;
+        let nth = it.nth(k);
+        if nth.is_some() != (k < n) {
+            return Err(format!("nth({}) is {} on a database of {} packages", k, if nth.is_some() { "Some" } else { "None" }, n));
+        }
+        if open()?.count() != n {
+            return Err(format!("count() differs from the number of packages ({})", n));
+        }
+    }
     let incomplete = c.dirs.len() - want.len();
     obs.nontrivial = want.len() >= 2 && (incomplete >= 1 || !c.stray_files.is_empty());
     if incomplete >= 1 {
